@@ -84,6 +84,13 @@ def run(ctx):
         s = c.schema
         raw, align = c.himpl['raw'], c.himpl['align']
         ws = 1 if c.opts['with_size'] else 0
+        lost = bu.embed_header_lost(s, c.node, raw, 4 if ws else 0)
+        if lost:
+            # one key for everything that follows from it (out-of-bounds / misaligned reads, values read differently)
+            ctx.violation('embed-top-level-no-header',
+                          'embed_buffer called inside the open top-level buffer emitted the bytes without the ubyte vector length: the generated reader takes the first '
+                          'word of the embedded buffer for the length of nested field %s' % lost[0],
+                          {'harness_line': c.h, 'model_line': c.m, 'schema': s.name, 'buffer_hex': raw.hex(), 'path': lost[0]}); continue
         ri = bu.roots_of(s).index(c.root)
         am = align if 0 < align < 256 else 0
         dump_items.append((s.name, 'dump %d %d %d %s' % (ri, ws, am, raw.hex() if raw else '-'))); dump_cases.append(c)
